@@ -58,7 +58,8 @@ const KW = ["string", "number", "boolean", "null", "undefined", "any", "unknown"
 function genLit(rng) {
   switch (rng.below(6)) {
     case 0: return [A("lit"), [A("b"), A(rng.chance(1, 2) ? "true" : "false")]];
-    case 1: case 2: return [A("lit"), [A("n"), rng.pick(["0", "1", "2", "12", "1.5"])]];
+    // (fractions that are not sums of few powers of two, a magnitude beyond 2^63, a negative fraction)
+    case 1: case 2: return [A("lit"), [A("n"), rng.pick(["0", "1", "2", "12", "1.5", "0.1", "3.14159", "2.675", "-2.5", "1e+21"])]];
     default: return [A("lit"), [A("s"), rng.pick(["a", "b", "c", "ab", "x", "toString"])]];
   }
 }
@@ -215,7 +216,7 @@ export function genProg(rng) {
 
 // ---------- type-directed values (best effort; only affects coverage quality) ----------
 const STRS = ["", "a", "b", "c", "ab", "x", "p", "a-", "a12", "x.y", "zza1zz", "true", "12", "1.5", "toString"];
-const NUMS = [0, 1, 2, 12, 1.5, -1, NaN];
+const NUMS = [0, 1, 2, 12, 1.5, -1, NaN, 0.1, 3.14159, 3.141589999, 2.675, -2.5, 1e21, 9223372036854776000];
 function randomValue(rng, d) {
   switch (rng.below(d > 0 ? 14 : 10)) {
     case 0: return null; case 1: return undefined; case 2: return rng.chance(1, 2);
